@@ -8,7 +8,8 @@ META = {
              "arrays/objects nested to any depth) the text the library generates (model `print`, an arm-by-arm mirror of the generation rules of "
              "json.pl) is parsed back to exactly that value by a reference RFC 8259 / McKeeman parser (whitespace, all escapes, \\uXXXX with "
              "surrogate pairs; fuel = length + 1); string and integer literal round trips and nine malformed families (trailing comma, leading "
-             "zero, bare control character, lone low/high surrogate, unterminated string/array, text after the document) are separate theorems. "
+             "zero, bare control character, lone low/high surrogate, unterminated string/array, text after the document) are separate theorems, "
+             "as is escaped_string_round_trip (every \\uXXXX escape and surrogate pair decodes to the denoted scalar value). "
              "The model is tied to json.pl differentially: the implementation parses the model's text to the model's term, the model parses the "
              "implementation's generated text, the implementation re-parses its own text, free-form valid documents (whitespace, alternative "
              "escapes, exponents) give the same term in both, and on a malformed stream the accept/reject verdicts agree (all compared in Coq)."),
@@ -425,22 +426,27 @@ def gen_dec(rng):
 
 
 # ------------------------------------------------------------------ implementation runs
-def run_jobs(ctx, queries, tag, per_job=150, max_answers=3):
+def run_all(ctx, streams, per_job=200, max_answers=3):
+    """streams: {tag: [query text]} -> {tag: [answer list per query]}; one vrun batch so that the shards stay busy."""
     jobs = []
-    for i in range(0, len(queries), per_job):
-        jobs.append({"id": "%s%d" % (tag, i), "consult": PRELUDE, "queries": queries[i:i + per_job], "max_answers": max_answers,
-                     "timeout_ms": 20000, "fresh": True})
-    res = core.vrun_query(ctx.prop, jobs, tag=tag)
-    out = []
-    for i in range(0, len(queries), per_job):
-        r = res.get("%s%d" % (tag, i))
-        n = len(queries[i:i + per_job])
-        if r is None or "results" not in r:
-            out += [[{"harness": json.dumps(r)[:300]}]] * n
-        else:
-            rs = r["results"]
-            out += [rs[j] if j < len(rs) else [{"harness": "missing"}] for j in range(n)]
-    return out
+    for tag, queries in streams.items():
+        for i in range(0, len(queries), per_job):
+            jobs.append({"id": "%s%d" % (tag, i), "consult": PRELUDE, "queries": queries[i:i + per_job], "max_answers": max_answers,
+                         "timeout_ms": 20000, "fresh": True})
+    res = core.vrun_query(ctx.prop, jobs, tag="impl")
+    outs = {}
+    for tag, queries in streams.items():
+        out = []
+        for i in range(0, len(queries), per_job):
+            r = res.get("%s%d" % (tag, i))
+            n = len(queries[i:i + per_job])
+            if r is None or "results" not in r:
+                out += [[{"harness": json.dumps(r)[:300]}]] * n
+            else:
+                rs = r["results"]
+                out += [rs[j] if j < len(rs) else [{"harness": "missing"}] for j in range(n)]
+        outs[tag] = out
+    return outs
 
 
 def solutions(ans):
@@ -502,11 +508,11 @@ def show(cs):
 def run(ctx):
     rng = ctx.rng
     pool = int_pool(rng)
-    NV = ctx.scale(1000, 20000)
-    NBAD = ctx.scale(1300, 25000)
-    NFANCY = ctx.scale(700, 15000)
-    NPAIR = ctx.scale(40, 400)
-    NDEC = ctx.scale(300, 5000)
+    NV = ctx.scale(850, 8000)
+    NBAD = ctx.scale(1200, 10000)
+    NFANCY = ctx.scale(600, 6000)
+    NPAIR = ctx.scale(40, 200)
+    NDEC = ctx.scale(250, 2000)
 
     values, seen = [], set()
     fixed = [("arr", []), ("obj", []), ("str", []), ("int", 0), ("null",), ("bool", True), ("bool", False),
@@ -539,8 +545,39 @@ def run(ctx):
     texts = [py_print(v) for v in values]
     q1 = ["c41_parse(%s, T)." % pl_codes(t) for t in texts]
     q2 = ["c41_rt(%s, Codes, T)." % to_codeform(v) for v in values]
-    r1 = run_jobs(ctx, q1, "i")
-    r2 = run_jobs(ctx, q2, "g")
+    # free-form valid documents
+    fancy = []
+    for _ in range(NFANCY):
+        v = rng.choice(values)
+        fancy.append((v, with_ws(rng, tokens_fancy(rng, v)), "valid"))
+    astral = [v for v in values if "astral" in features(v)]
+    for _ in range(NPAIR if astral else 0):
+        v = rng.choice(astral)
+        fancy.append((v, with_ws(rng, tokens_fancy(rng, v, allow_pairs=True)), "surrogate_pair_escape"))
+    q3 = ["c41_parse(%s, T)." % pl_codes(t) for _, t, _ in fancy]
+    # malformed stream
+    bad = []
+    for fam, lst in FIXED_BAD.items():
+        for s in lst:
+            bad.append((fam, S(s)))
+    tries = 0
+    while len(bad) < NBAD and tries < NBAD * 5:
+        tries += 1
+        m = mutate(rng, rng.choice(values))
+        if m is not None:
+            bad.append(m)
+    sb = set(); bad2 = []
+    for fam, t in bad:
+        k = tuple(t)
+        if k in sb: continue
+        sb.add(k); bad2.append((fam, t))
+    bad = bad2
+    q4 = ["c41_parse(%s, T)." % pl_codes(t) for _, t in bad]
+    # float-valued number texts
+    decs = sorted(set(gen_dec(rng) for _ in range(NDEC)) | {"1.5", "0.1", "1e-2", "-0.0", "0E-5", "1.5e1", "10e-1", "123.456e-7", "0.000001", "9007199254740993.0"})
+    q5 = ["c41_parse(%s, T)." % pl_codes(S(d)) for d in decs]
+    R = run_all(ctx, {"i": q1, "g": q2, "f": q3, "b": q4, "d": q5})
+    r1, r2, r3, r4, r5 = R["i"], R["g"], R["f"], R["b"], R["d"]
     for v, t, a1, a2, qa, qb in zip(values, texts, r1, r2, q1, q2):
         cv = to_coq(v)
         s1, o1 = solutions(a1)
@@ -560,16 +597,6 @@ def run(ctx):
         samples.append({"value": to_coq(v)[:200], "model_text": show(t)[:200], "impl_parse": ans_text(a1)[:200]})
 
     # ---- free-form valid documents
-    fancy = []
-    for _ in range(NFANCY):
-        v = rng.choice(values)
-        fancy.append((v, with_ws(rng, tokens_fancy(rng, v)), "valid"))
-    astral = [v for v in values if "astral" in features(v)]
-    for _ in range(NPAIR if astral else 0):
-        v = rng.choice(astral)
-        fancy.append((v, with_ws(rng, tokens_fancy(rng, v, allow_pairs=True)), "surrogate_pair_escape"))
-    q3 = ["c41_parse(%s, T)." % pl_codes(t) for _, t, _ in fancy]
-    r3 = run_jobs(ctx, q3, "f")
     for (v, t, kind), a, q in zip(fancy, r3, q3):
         s, o = solutions(a)
         ok = len(s) >= 1 and all(x == s[0] for x in s) and not o
@@ -578,24 +605,6 @@ def run(ctx):
         nontrivial.add("f:" + show(t))
 
     # ---- malformed stream: verdicts
-    bad = []
-    for fam, lst in FIXED_BAD.items():
-        for s in lst:
-            bad.append((fam, S(s)))
-    tries = 0
-    while len(bad) < NBAD and tries < NBAD * 5:
-        tries += 1
-        m = mutate(rng, rng.choice(values))
-        if m is not None:
-            bad.append(m)
-    sb = set(); bad2 = []
-    for fam, t in bad:
-        k = tuple(t)
-        if k in sb: continue
-        sb.add(k); bad2.append((fam, t))
-    bad = bad2
-    q4 = ["c41_parse(%s, T)." % pl_codes(t) for _, t in bad]
-    r4 = run_jobs(ctx, q4, "b")
     for (fam, t), a, q in zip(bad, r4, q4):
         s, o = solutions(a)
         accepted = len(s) >= 1
@@ -609,9 +618,6 @@ def run(ctx):
         dist["malformed_families"][fam] = dist["malformed_families"].get(fam, 0) + 1
 
     # ---- number texts that become floats
-    decs = sorted(set(gen_dec(rng) for _ in range(NDEC)) | {"1.5", "0.1", "1e-2", "-0.0", "0E-5", "1.5e1", "10e-1", "123.456e-7", "0.000001", "9007199254740993.0"})
-    q5 = ["c41_parse(%s, T)." % pl_codes(S(d)) for d in decs]
-    r5 = run_jobs(ctx, q5, "d")
     for d, a, q in zip(decs, r5, q5):
         s, o = solutions(a)
         bits = None
@@ -642,10 +648,10 @@ def run(ctx):
             else:
                 key = "json:reject:" + fam
                 what = "the implementation rejects (fails or raises) a valid RFC 8259 document"
-        elif kind == "surrogate_pair_escape":
+        elif kind == "surrogate_pair_escape" and not solutions(a)[0]:
             key = "json:reject:surrogate_pair_escape"
             what = "a valid document whose string uses a \\uD8xx\\uDCxx surrogate pair escape is not parsed to the denoted character"
-        elif kind == "valid":
+        elif kind in ("valid", "surrogate_pair_escape"):
             key = "json:valid_text:" + ("no_term" if not solutions(a)[0] else "wrong_term")
             what = "a valid document (whitespace / alternative escapes / exponent forms) is not parsed to the documented term"
         elif kind == "model_text":
@@ -657,11 +663,12 @@ def run(ctx):
         else:
             key = "json:number:float_inaccurate"
             what = "a number text with fraction/negative exponent is not parsed to a float within relative 2^-50 of its decimal value"
-        if key in reported and reported[key] >= 3:
+        if key in reported and reported[key] >= 2:
             continue
         reported[key] = reported.get(key, 0) + 1
         failures.append({"key": key, "what": what, "input": q[:1500], "text": show(t) if t is not None else None,
-                         "impl": ans_text(a), "spec": model_parse(t) if t is not None else "parse (print v) = Some v",
+                         "impl": ans_text(a),
+                         "spec": (model_parse(t) if reported[key] == 1 else "(see the first failure with this key)") if t is not None else "parse (print v) = Some v",
                          "property_fails": True})
 
     ev = len(bools)
